@@ -5,7 +5,7 @@ LEVEL = "model_checking"
 
 def run(ck):
     q = ck.quick()
-    fc.run_family(ck, "C02", ["gop1", "audio1", "nocache1", "hevc1", "flv1", "flvaud1", "flvnocache1", "flvstamp2"] if q else list(fc.fs.SCENARIOS),
+    fc.run_family(ck, "C02", ["gop1", "audio1", "nocache1", "hevc1", "flv1", "flvaud1", "flvnocache1", "flvstamp2", "gopsps1"] if q else list(fc.fs.SCENARIOS),
                   ["C02"], 200 if q else 2000, 600 if q else 20000)
 
 
